@@ -51,6 +51,10 @@ pub struct NodeMon {
     /// Blocks handed to the execution layer: number -> payload hash.
     pub handed: BTreeMap<u64, validator::PayloadHash>,
     pub crashes: u64,
+    /// Timeout votes signed, by view (a validator may re-sign with a newer high certificate).
+    pub timeout_votes: BTreeMap<u64, Vec<v2::ReplicaTimeout>>,
+    /// Last snapshot of the live incarnation: (incarnation, view, hc view, ht view).
+    pub last_snap: Option<(u64, u64, Option<u64>, Option<u64>)>,
 }
 
 pub struct HubInner {
@@ -70,6 +74,12 @@ pub struct HubInner {
     pub max_pad: usize,
     /// Distinct abstract states seen.
     pub abstract_states: BTreeSet<u64>,
+    /// Certificates already judged genuine (by content hash).
+    pub genuine: BTreeSet<u64>,
+    /// C02: weight of correct commit voters per (view, number, hash).
+    pub vote_weight: BTreeMap<(u64, u64, validator::PayloadHash), u64>,
+    /// C02: blocks which the adversary could have certified: number -> (hash, first view).
+    pub potential: BTreeMap<u64, (validator::PayloadHash, u64)>,
     /// The run stops at the first violation of this property (any property if None).
     pub focus: Option<String>,
 }
@@ -102,6 +112,9 @@ impl Hub {
                 pad_rng,
                 max_pad,
                 abstract_states: BTreeSet::new(),
+                genuine: BTreeSet::new(),
+                vote_weight: BTreeMap::new(),
+                potential: BTreeMap::new(),
                 focus: None,
             }),
         }
@@ -378,6 +391,7 @@ impl Hub {
                         ),
                     );
                 }
+                self.c02_on_correct_vote(node, c);
                 let mut i = self.inner.lock().unwrap();
                 let mon = &mut i.mons[node];
                 mon.commit_votes.entry(view).or_insert_with(|| c.clone());
@@ -409,6 +423,10 @@ impl Hub {
                 }
                 let mut i = self.inner.lock().unwrap();
                 let mon = &mut i.mons[node];
+                let e = mon.timeout_votes.entry(view).or_default();
+                if !e.contains(t) {
+                    e.push(t.clone());
+                }
                 mon.max_timeout_view = mon.max_timeout_view.max(Some(view));
                 mon.max_signed_view = mon.max_signed_view.max(Some(view));
             }
@@ -439,6 +457,323 @@ impl Hub {
             v2::ChonkyMsg::LeaderProposal(p) => {
                 self.on_justification(&p.justification, &format!("in proposal of n{node}"));
             }
+        }
+    }
+
+    /// C02 (history level).  A block is *potentially certified* at view v as soon as the correct
+    /// validators which voted for it in v, together with the entire Byzantine weight, reach the
+    /// quorum - whether or not anybody assembled the certificate.
+    fn c02_on_correct_vote(&self, node: usize, c: &v2::ReplicaCommit) {
+        let view = c.view.number.0;
+        let n = c.proposal.number.0;
+        let h = c.proposal.payload;
+        let quorum = self.committee.schedule.quorum_threshold();
+        let byz = self.committee.byz_weight();
+        let mut bad: Vec<(&str, String)> = vec![];
+        {
+            let mut i = self.inner.lock().unwrap();
+            if i.mons[node].commit_votes.contains_key(&view) {
+                return; // counted already (or an equivocation, reported by C03)
+            }
+            // (b) after (n0,h0) became potentially certified at v0, no correct validator votes in a
+            //     later view for another hash of n0 or for a smaller number.
+            for (n0, (h0, v0)) in &i.potential {
+                if view > *v0 {
+                    if n == *n0 && h != *h0 {
+                        bad.push((
+                            "vote_against_certified_block",
+                            format!("n{node} votes in view {view} for block {n}/{h:?}, but {h0:?} was potentially certified in view {v0}"),
+                        ));
+                    }
+                    if n < *n0 {
+                        bad.push((
+                            "vote_below_certified_block",
+                            format!("n{node} votes in view {view} for block {n}, but block {n0} was potentially certified in view {v0}"),
+                        ));
+                    }
+                }
+            }
+            let w = i.vote_weight.entry((view, n, h)).or_default();
+            *w += self.committee.weights[node];
+            if *w + byz >= quorum {
+                match i.potential.get(&n) {
+                    Some((h0, v0)) if *h0 != h => bad.push((
+                        "two_potentially_certified_blocks",
+                        format!("block {n}: {h:?} can be certified in view {view}, {h0:?} could be certified in view {v0}"),
+                    )),
+                    Some(_) => {}
+                    None => {
+                        i.potential.insert(n, (h, view));
+                    }
+                }
+            }
+        }
+        for (class, detail) in bad {
+            self.violation("C02", class, detail);
+        }
+    }
+
+    /// Judges a commit certificate against the signing history of this run, not by the repo's
+    /// own `verify`: every claimed correct signer really signed exactly this vote, the signer set
+    /// has the committee's length and its weight reaches the quorum.
+    pub fn commit_qc_genuine(&self, qc: &v2::CommitQC) -> Result<(), String> {
+        let c = &self.committee;
+        if qc.signers.len() != c.n() {
+            return Err(format!("signer set of length {} for a committee of {}", qc.signers.len(), c.n()));
+        }
+        if qc.message.view.genesis != c.genesis.hash() || qc.message.view.epoch.0 != 0 {
+            return Err("certificate for another chain or epoch".into());
+        }
+        let i = self.inner.lock().unwrap();
+        let mut weight = 0;
+        for (k, v) in c.schedule.iter().enumerate() {
+            if !qc.signers.0[k] {
+                continue;
+            }
+            let idx = c.idx(&v.key).unwrap();
+            weight += v.weight;
+            if !c.byz[idx] && i.mons[idx].commit_votes.get(&qc.message.view.number.0) != Some(&qc.message) {
+                return Err(format!(
+                    "claims the signature of correct validator n{idx} which never signed this vote (view {}, block {})",
+                    qc.message.view.number.0, qc.message.proposal.number.0
+                ));
+            }
+        }
+        if weight < c.schedule.quorum_threshold() {
+            return Err(format!("weight {weight} below the quorum {}", c.schedule.quorum_threshold()));
+        }
+        Ok(())
+    }
+
+    pub fn timeout_qc_genuine(&self, qc: &v2::TimeoutQC) -> Result<(), String> {
+        let c = &self.committee;
+        if qc.view.genesis != c.genesis.hash() || qc.view.epoch.0 != 0 {
+            return Err("certificate for another chain or epoch".into());
+        }
+        let mut seen = vec![false; c.n()];
+        let mut weight = 0;
+        for (msg, signers) in &qc.map {
+            if signers.len() != c.n() {
+                return Err("signer set of wrong length".into());
+            }
+            if msg.view != qc.view {
+                return Err("vote for another view inside the certificate".into());
+            }
+            if let Some(hq) = &msg.high_qc {
+                self.commit_qc_genuine(hq).map_err(|e| format!("high certificate inside: {e}"))?;
+            }
+            let i = self.inner.lock().unwrap();
+            for (k, v) in c.schedule.iter().enumerate() {
+                if !signers.0[k] {
+                    continue;
+                }
+                if seen[k] {
+                    return Err(format!("validator {k} counted twice"));
+                }
+                seen[k] = true;
+                weight += v.weight;
+                let idx = c.idx(&v.key).unwrap();
+                if !c.byz[idx]
+                    && !i.mons[idx]
+                        .timeout_votes
+                        .get(&qc.view.number.0)
+                        .is_some_and(|l| l.contains(msg))
+                {
+                    return Err(format!(
+                        "claims the signature of correct validator n{idx} which never signed this timeout vote (view {})",
+                        qc.view.number.0
+                    ));
+                }
+            }
+        }
+        if weight < c.schedule.quorum_threshold() {
+            return Err(format!("weight {weight} below the quorum {}", c.schedule.quorum_threshold()));
+        }
+        Ok(())
+    }
+
+    fn judge_commit_qc(&self, node: usize, qc: &v2::CommitQC, wher: &str) {
+        let key = crate::kit::hash_bytes(&zksync_protobuf::encode(qc));
+        if self.inner.lock().unwrap().genuine.contains(&key) {
+            return;
+        }
+        match self.commit_qc_genuine(qc) {
+            Ok(()) => {
+                self.inner.lock().unwrap().genuine.insert(key);
+            }
+            Err(e) => self.violation(
+                "C05",
+                "adopted_forged_commit_certificate",
+                format!("n{node} {wher} a commit certificate (view {}) which is not backed by the signing history: {e}", qc.view().number.0),
+            ),
+        }
+    }
+
+    fn judge_timeout_qc(&self, node: usize, qc: &v2::TimeoutQC, wher: &str) {
+        let key = crate::kit::hash_bytes(&zksync_protobuf::encode(qc)) ^ 0x7;
+        if self.inner.lock().unwrap().genuine.contains(&key) {
+            return;
+        }
+        match self.timeout_qc_genuine(qc) {
+            Ok(()) => {
+                self.inner.lock().unwrap().genuine.insert(key);
+            }
+            Err(e) => self.violation(
+                "C05",
+                "adopted_forged_timeout_certificate",
+                format!("n{node} {wher} a timeout certificate (view {}) which is not backed by the signing history: {e}", qc.view.number.0),
+            ),
+        }
+    }
+
+    /// Replica snapshot (hook H3) of the live incarnation `inc` of correct node `node`.
+    pub fn on_snapshot(&self, node: usize, inc: u64, s: &zksync_consensus_bft::verif::Snapshot, durable: &v2::ChonkyV2State) {
+        use zksync_consensus_bft::verif::Event;
+        let view = s.view.0;
+        let hc = s.high_commit_qc.as_ref().map(|q| q.view().number.0);
+        let ht = s.high_timeout_qc.as_ref().map(|q| q.view.number.0);
+        self.ev(format!(
+            "n{node}.{inc} snap {:?} view={view} {:?} hc={hc:?} ht={ht:?} caches=({},{}/{},{},{}) props={}",
+            s.event, s.phase, s.commit_views, s.commit_qc_views, s.commit_qcs, s.timeout_views, s.timeout_qcs, s.proposal_cache
+        ));
+        let n = self.committee.n();
+        // C05 oracle 1: monotone within the incarnation; a new incarnation starts from the durable state.
+        let last = self.inner.lock().unwrap().mons[node].last_snap;
+        match (s.event == Event::Start, last) {
+            (true, _) => {
+                let dh = durable.high_commit_qc.as_ref().map(|q| q.view().number.0);
+                let dt = durable.high_timeout_qc.as_ref().map(|q| q.view.number.0);
+                if view < durable.view_number.0 || hc < dh || ht < dt {
+                    self.violation(
+                        "C05",
+                        "restart_below_durable_state",
+                        format!("n{node}.{inc} starts at view {view} hc {hc:?} ht {ht:?}, durable state is view {} hc {dh:?} ht {dt:?}", durable.view_number.0),
+                    );
+                }
+            }
+            (false, Some((linc, lv, lhc, lht))) if linc == inc => {
+                if view < lv {
+                    self.violation("C05", "view_decreased", format!("n{node}.{inc}: view {lv} -> {view}"));
+                }
+                if hc < lhc {
+                    self.violation("C05", "high_commit_qc_decreased", format!("n{node}.{inc}: {lhc:?} -> {hc:?}"));
+                }
+                if ht < lht {
+                    self.violation("C05", "high_timeout_qc_decreased", format!("n{node}.{inc}: {lht:?} -> {ht:?}"));
+                }
+            }
+            _ => {}
+        }
+        self.inner.lock().unwrap().mons[node].last_snap = Some((inc, view, hc, ht));
+        // C05 oracle 2: the current view is justified by a certificate for the preceding view
+        // (or a newer one), and every certificate held is genuine.
+        if view > 0 {
+            let best = hc.max(ht);
+            if best.is_none_or(|b| b + 1 < view) {
+                self.violation(
+                    "C05",
+                    "unjustified_view",
+                    format!("n{node}.{inc} is in view {view} but its highest certificates are hc {hc:?} ht {ht:?}"),
+                );
+            } else if best.is_some_and(|b| b + 1 > view) {
+                self.probe("certificate_ahead_of_view");
+            }
+        }
+        if let Some(q) = &s.high_commit_qc {
+            self.judge_commit_qc(node, q, "holds");
+        }
+        if let Some(q) = &s.high_timeout_qc {
+            self.judge_timeout_qc(node, q, "holds");
+        }
+        // C16 (replica half): bookkeeping bounded by the committee size alone.
+        let bounds = [
+            ("commit_views_cache", s.commit_views, n),
+            ("timeout_views_cache", s.timeout_views, n),
+            ("commit_qcs_cache views", s.commit_qc_views, n),
+            ("timeout_qcs_cache", s.timeout_qcs, n),
+            ("commit_qcs_cache certificates", s.commit_qcs, n * n),
+        ];
+        for (name, got, max) in bounds {
+            if got > max {
+                self.violation(
+                    "C16",
+                    "replica_cache_unbounded",
+                    format!("n{node}.{inc}: {name} has {got} entries, bound for a committee of {n} is {max}"),
+                );
+            }
+        }
+        if s.commit_qc_views >= 2 || s.timeout_qcs >= 2 {
+            self.probe("several_partial_certificates");
+        }
+        // Abstract state x input cell (coverage measure).
+        let rel = |a: Option<u64>, b: u64| match a {
+            None => 0u64,
+            Some(x) if x + 1 < b => 1,
+            Some(x) if x + 1 == b => 2,
+            _ => 3,
+        };
+        let (label, mv, err) = match &s.event {
+            Event::Start => ("start", 0u64, 0u64),
+            Event::Timeout => ("timer", 0, 0),
+            Event::Handled { label, view: mv, error } => (
+                *label,
+                if *mv < view { 1 } else if *mv == view { 2 } else { 3 },
+                error.as_ref().map(|e| crate::kit::hash_bytes(e.as_bytes())).unwrap_or(0),
+            ),
+        };
+        let hv_rel = match (&s.high_vote, &s.high_commit_qc) {
+            (None, _) => 0u64,
+            (Some(_), None) => 1,
+            (Some(v), Some(q)) if v.proposal.number > q.header().number => 2,
+            _ => 3,
+        };
+        let mut cell = crate::kit::hash_bytes(label.as_bytes());
+        for x in [s.phase as u64, rel(hc, view), rel(ht, view), hv_rel, mv, err] {
+            cell = crate::kit::mix(cell, x);
+        }
+        self.inner.lock().unwrap().abstract_states.insert(cell);
+    }
+
+    /// C05 oracle 3: a new-view / timeout / proposal emitted by a correct node is self-justifying.
+    pub fn check_self_justifying(&self, node: usize, inc: u64, msg: &validator::Signed<validator::ConsensusMsg>, cur_view: Option<u64>) {
+        let validator::ConsensusMsg::V2(m) = &msg.msg;
+        let c = &self.committee;
+        let g = c.genesis.hash();
+        let e = validator::EpochNumber(0);
+        let res: Result<(), String> = match m {
+            v2::ChonkyMsg::ReplicaNewView(nv) => {
+                if let v2::ProposalJustification::Commit(q) = &nv.justification {
+                    self.judge_commit_qc(node, q, "emits");
+                }
+                if let v2::ProposalJustification::Timeout(q) = &nv.justification {
+                    self.judge_timeout_qc(node, q, "emits");
+                }
+                if let Some(cv) = cur_view {
+                    if nv.view().number.0 < cv {
+                        self.violation(
+                            "C05",
+                            "new_view_below_current_view",
+                            format!("n{node}.{inc} emits a new-view for view {} while being in view {cv}", nv.view().number.0),
+                        );
+                    }
+                }
+                nv.verify(g, e, &c.schedule).map_err(|e| format!("{e:#}"))
+            }
+            v2::ChonkyMsg::ReplicaTimeout(t) => {
+                if let Some(q) = &t.high_qc {
+                    self.judge_commit_qc(node, q, "emits");
+                }
+                t.verify(g, e, &c.schedule).map_err(|e| format!("{e:#}"))
+            }
+            v2::ChonkyMsg::LeaderProposal(p) => p.verify(g, e, &c.schedule).map_err(|e| format!("{e:#}")),
+            v2::ChonkyMsg::ReplicaCommit(cm) => cm.verify(g, e).map_err(|e| format!("{e:#}")),
+        };
+        if let Err(e) = res {
+            self.violation(
+                "C05",
+                "emitted_message_not_self_justifying",
+                format!("n{node}.{inc} emitted {} which does not verify in isolation: {e}", describe(msg)),
+            );
         }
     }
 
